@@ -9,4 +9,5 @@ CONSTRAINT Bound
 PROPERTY FreshResult
 PROPERTY ResultOwned
 PROPERTY AnswerStable
+PROPERTY OnlyEditsChangeK
 CHECK_DEADLOCK FALSE
